@@ -16,7 +16,7 @@ P = {
     "C20": dict(theorems=["Properties/C20.v"],
                 runs=[dict(cmd="c20", quick=3000, thorough=200000, shards_thorough=4)]),
     "C19": dict(theorems=["Properties/C19.v"],
-                runs=[dict(cmd="c19", quick=60, thorough=4000, shards_thorough=8)]),
+                runs=[dict(cmd="c19", quick=60, thorough=4000, shards_thorough=8)], vm_k=6),
     "C09": dict(theorems=["Properties/C09.v"],
                 runs=[dict(cmd="appdb", quick=300, thorough=20000, shards_thorough=4),
                       dict(cmd="c09", quick=16, thorough=600, shards_thorough=8, model=False)]),
